@@ -122,12 +122,14 @@ package fragmentation
 //@   loop 1: decreases redundancy - y
 //@   loop 2: invariant counter: x >= 0 && x <= w && len(a) == w && len(s) == fragmentSize && fresh(s)
 //@   loop 2: invariant row-len: forall j int :: 0 <= j && j < w ==> len(dataRows[j]) == fragmentSize
+//@   loop 2: invariant row-view: forall j int :: 0 <= j && j < w ==> samebase(dataRows[j], data[j*fragmentSize:])
 //@   loop 2: invariant parity-zero: x == 0 ==> forall k int :: 0 <= k && k < fragmentSize ==> s[k] == 0
 //@   loop 2: step next-row: x == prev(x) + 1
 //@   loop 2: step xor-selected: forall k int :: 0 <= k && k < fragmentSize ==> s[k] == prev(s[k] ^ ite(a[x] == 1, dataRows[x][k], 0))
 //@   loop 2: modifies s[0:fragmentSize]
 //@   loop 2: decreases w - x
 //@   loop 3: invariant counter: m >= 0 && m <= fragmentSize && x >= 0 && x < w && len(s) == fragmentSize && fresh(s) && len(dataRows[x]) == fragmentSize
+//@   loop 3: invariant row-view: samebase(dataRows[x], data[x*fragmentSize:])
 //@   loop 3: invariant done: forall k int :: 0 <= k && k < m ==> s[k] == entry(s[k]) ^ dataRows[x][k]
 //@   loop 3: invariant rest: forall k int :: m <= k && k < fragmentSize ==> s[k] == entry(s[k])
 //@   loop 3: modifies s[0:fragmentSize]
